@@ -88,7 +88,7 @@ func zzInv(d *Decoder) bool {
 	return ok
 }
 ''',
-      gen=("C06", "C03", "C08H"),
+      gen=("C06", "C06D", "C03", "C08H"),
       extra='''
 // C07 for H264. The decoder also splits access units by timestamp (cameras that
 // never set the marker), so an access unit may legitimately be handed over one
@@ -454,8 +454,22 @@ codec("rtpvp9", "VP9",
       imports='\t"github.com/bluenviron/mediacommon/v2/pkg/codecs/vp9"\n',
       enc_extra=", InitialPictureID: zzPicID()",
       mlo=12, mhi=18, mlo03=12, mhi03=16, mhi07=14, p06=18, p03=16, p07=14, p08=8, k08=2, cap="vp9.MaxFrameSize",
-      frame06='zzValidFrame("frame", P)',
+      frame06='zzValidFrame("frame", P)', frame06d='zzValidFrameLO("frame", L)',
       valid='''
+// same validity on a length-only buffer (only the header bytes are constrained)
+func zzValidFrameLO(name string, L int) zzFrameT {
+	b := zzBytesLO(name, 10, L)
+	if zzBool("keyframe") {
+		zzAssume(b[0]&0xFC == 0x80)
+		zzAssume(b[1] == 0x49)
+		zzAssume(b[2] == 0x83)
+		zzAssume(b[3] == 0x42)
+	} else {
+		zzAssume(b[0]&0xFC == 0x84)
+	}
+	return b
+}
+
 func zzPicID() *uint16 {
 	v := zzU16("picid")
 	return &v
@@ -530,7 +544,7 @@ func ZzC08VP9Ind() {
 ''')
 
 # ---------------------------------------------------------------- MPEG-1 video
-codec("rtpmpeg1video", "MPEG1Video", enc_pt="", pt_expect="32",
+codec("rtpmpeg1video", "MPEG1Video", enc_pt="", pt_expect="32", gen=("C06", "C03", "C07", "C08H"),
       mlo=5, mhi=12, mlo03=5, mhi03=10, mhi07=8, p06=10, p03=10, p07=8, p08=8, k08=2, cap="maxFrameSize",
       frame06='zzValidFrame("frame", P)',
       valid='''
